@@ -9,7 +9,7 @@ def A(j, j2, j3, m1):
     return math.sqrt((j**2 - (j2 - j3)**2) * ((j2 + j3 + 1)**2 - j**2) * (j**2 - m1**2))
 
 
-@jit("int32(int32, int32, int32, int32, int32)")
+@jit("int64(int32, int32, int32, int32, int32)")
 def B(j, j2, j3, m2, m3):
     return (2 * j + 1) * ((m2 + m3) * (j2 * (j2 + 1) - j3 * (j3 + 1)) - (m2 - m3) * j * (j + 1))
 
